@@ -613,10 +613,10 @@ class Scores:
     ):
         scores = scores.astype(float)  # Otherwise we can get problems with nextafter
 
-        if not left_continuous:
-            min_ratio = 1.0 / len(scores)
-            target_ratio = target_ratio - min_ratio
         target = target_ratio * len(scores)
+        if not left_continuous:
+            # Shift by one sample. The special cases below must see the unshifted ratio.
+            target = target - 1.0
 
         left_idx = np.floor(target)  # Element to left of threshold
         right_idx = np.ceil(target)  # Element to right of threshold
